@@ -5,7 +5,16 @@ Model (Lean):   CbiVerif.Dups.findDuplicates (driver op "dups"), the definition 
                 fed with the observed enumeration (path, is_symlink, member, bytes) and run with several
                 hash functions (injective .. constant) and several `set.pop()` strategies
 Oracle:         direct byte-wise partition of the regular member files, computed from the generated plan
-                (membership from the generator's ground truth, not from CodeBase.__contains__)
+                (membership from the generator's ground truth, not from CodeBase.__contains__: a hand-written
+                evaluator for five fixed pattern forms, or — plans with "oracle": "git" — `git check-ignore`
+                on the ORDERED exclude list, which may contain negations, re-exclusions and repeats)
+
+Streams:        single report on a fresh CodeBase (fixed pattern forms); the same with ordered gitignore-style
+                exclude lists judged by git; HISTORIES: one CodeBase object is constructed (and optionally
+                iterated / queried / reported on), then the tree is edited (files added, deleted, overwritten,
+                renamed, turned into links and back) and the report of the SAME object is compared with the
+                byte-wise partition of the edited plan, stage after stage; `codebasin -R duplicates` as a
+                subprocess for all three (exclude list split between `-x` and `[codebase] exclude`).
 
 The real code is additionally run with `hashlib.file_digest` interposed IN THE HARNESS PROCESS by weak
 digests (constant / size / first byte): the result must not change (theorem `hash_irrelevant`); this makes
@@ -13,14 +22,18 @@ the byte-wise confirmation loop observable (sha512 collisions cannot be construc
 """
 from __future__ import annotations
 
+import atexit
 import contextlib
 import hashlib
 import io
 import json
 import os
+import shutil
+import tempfile
 from pathlib import Path
 
 from harness import core
+from harness.gen import c16gen, fstree
 
 SRC_EXT = [".c", ".h", ".cpp", ".hpp", ".cc", ".cxx", ".hh", ".f90", ".F90", ".f", ".s", ".asm"]
 C_EXT = [".c", ".h", ".cpp", ".hpp", ".cc", ".cxx", ".hh"]
@@ -75,14 +88,80 @@ def plan_bytes(plan):
     return out
 
 
-def oracle(plan):
+_GIT = None
+
+
+def git_oracle():
+    """one scratch git repository per run: reference for the meaning of an ordered exclude list"""
+    global _GIT
+    if _GIT is None:
+        d = tempfile.mkdtemp(prefix="cbiverif_c16git_")
+        atexit.register(shutil.rmtree, d, True)
+        _GIT = fstree.GitOracle(d)
+    return _GIT
+
+
+def candidates_by_root(plan):
+    """regular files with a recognised extension below a code-base directory: {dir: [dir-relative path]}
+    (the first listed directory containing the file is the one the patterns are relative to)"""
+    out = {}
+    for p in plan_bytes(plan):
+        if os.path.splitext(p)[1] not in SRC_EXT:
+            continue
+        for d in plan["dirs"]:
+            if p.startswith(d + "/"):
+                out.setdefault(d, []).append(p[len(d) + 1:])
+                break
+    return out
+
+
+def git_members(plan, base: Path, pats):
+    git = git_oracle()
+    mem = set()
+    for d, rels in candidates_by_root(plan).items():
+        ign = git.ignored(str(base / d), pats, rels)
+        mem |= {d + "/" + r for r in rels if r not in ign}
+    return mem
+
+
+def members_of(plan, base: Path):
+    """(set of member paths, None) or (None, reason) when the exclude list has no agreed meaning.
+    Plans with "oracle": "git": a candidate is a member iff `git check-ignore --no-index` does not ignore it under
+    the ordered list.  Lists on which the pattern library (pathspec, trusted, not under test here) and git differ
+    about some candidate are not judged: that divergence is the recorded subject of C09 (F-C09-GI-*)."""
+    if plan.get("oracle") != "git":
+        return {p for p in plan_bytes(plan) if gt_member(plan, p)}, None
+    import pathspec
+
+    pats = list(plan["excludes"])
+    mem = git_members(plan, base, pats)
+    try:
+        spec = pathspec.GitIgnoreSpec.from_lines(pats)
+    except Exception as e:  # noqa
+        return None, f"pathspec rejects the list: {type(e).__name__}"
+    for d, rels in candidates_by_root(plan).items():
+        for r in rels:
+            if bool(spec.match_file(r)) != ((d + "/" + r) not in mem):
+                return None, f"pathspec and git differ on {r!r}"
+    return mem, None
+
+
+def oracle(plan, members):
     """classes of size >= 2 of byte-identical regular member files, as a set of frozensets of relative paths"""
     data = plan_bytes(plan)
     classes = {}
     for p, b in data.items():
-        if gt_member(plan, p):
+        if p in members:
             classes.setdefault(b, set()).add(p)
-    return {frozenset(s) for s in classes.values() if len(s) >= 2}, {p for p in data if gt_member(plan, p)}
+    return {frozenset(s) for s in classes.values() if len(s) >= 2}
+
+
+def stage_plans(plan):
+    """the plan at every stage of its history (stage 0 = as generated)"""
+    out = [c16gen.apply_edits(plan, [])]
+    for edits in plan.get("history") or []:
+        out.append(c16gen.apply_edits(out[-1], edits))
+    return out
 
 
 # ---------------------------------------------------------------------------
@@ -118,7 +197,9 @@ def content_pool(rng, textual: bool):
     return rng.sample(cand, k)
 
 
-def gen_plan(rng, mode="api"):
+def gen_plan(rng, mode="api", excl="fixed", history=False):
+    """excl="git": the exclude list is an ordered gitignore-style list derived from the files (judged by git);
+    history=True: 1-3 stages of edits follow, applied while one CodeBase object stays alive"""
     textual = mode == "cli"
     exts = C_EXT if textual else SRC_EXT
     pool = content_pool(rng, textual)
@@ -210,6 +291,31 @@ def gen_plan(rng, mode="api"):
             plan["dirs"] = ["root", rng.choice(subs)]
             plan["excludes"] = [p for p in excludes if p in ("excl/", "x_*", "*.gen.c")]
             # ground truth uses the first directory containing the file: root
+    if excl == "git":
+        plan["oracle"] = "git"
+        data = plan_bytes(plan)
+        cand = candidates_by_root(plan)
+        rels = sorted({r for rs in cand.values() for r in rs})
+        blobs = [data[d + "/" + r] for d, rs in cand.items() for r in rs]
+        twins = sorted({r for d, rs in cand.items() for r in rs if blobs.count(data[d + "/" + r]) >= 2})
+        plan["excludes"] = c16gen.gen_patterns(rng, rels, twins)
+        if mode == "cli":
+            # command line first, then `[codebase] exclude` of the analysis file: one ordered list
+            n = len(plan["excludes"])
+            k = rng.randint(1, n - 1) if n >= 2 and rng.random() < 0.7 else rng.randint(0, n)  # mostly: both sources non-empty
+            for i, q in enumerate(plan["excludes"]):
+                if q.startswith("-"):
+                    k = min(k, i)  # argparse would read it as an option
+            plan["cli_split"] = k
+    if history:
+        plan["warm"] = rng.choice(["find", "find", "iter", "contains", "printed", "none"])
+        plan["history"] = []
+        cur = plan
+        for _ in range(rng.choices([1, 2, 3], [5, 3, 1])[0]):
+            edits = c16gen.gen_edits(rng, cur, exts, NONSRC_EXT, textual)
+            if edits:
+                plan["history"].append(edits)
+                cur = c16gen.apply_edits(cur, edits)
     return plan
 
 
@@ -232,7 +338,11 @@ def materialise(plan, base: Path):
             tgt = base / e["to"]
             os.symlink(str(tgt) if e.get("abs") else os.path.relpath(tgt, q.parent), q)
     if plan["mode"] == "cli":
-        (base / "root" / "analysis.toml").write_text('[platform.p]\ncommands = "cc.json"\n')
+        k = plan.get("cli_split", len(plan["excludes"]))
+        toml = ""
+        if k < len(plan["excludes"]):
+            toml = "[codebase]\nexclude = " + json.dumps(plan["excludes"][k:], ensure_ascii=False) + "\n\n"
+        (base / "root" / "analysis.toml").write_text(toml + '[platform.p]\ncommands = "cc.json"\n', encoding="utf-8")
         (base / "root" / "cc.json").write_text("[]\n")
 
 
@@ -366,141 +476,226 @@ def signature(plan, want, members):
     return repr((plan["dirs"], plan["excludes"], key))
 
 
+def _stats(ctx, plan, stage_plan, base, want, members, stage, origin):
+    """distribution buckets (all measured on the concrete case)"""
+    data = plan_bytes(stage_plan)
+    n_unique = len(members) - sum(len(g) for g in want)
+    sizes = sorted((len(g) for g in want), reverse=True)
+    ctx.count(key=f"groups={min(len(want), 4)}{'+' if len(want) > 4 else ''},max={min(sizes[0], 5) if sizes else 0}")
+    for k in {e["k"] for e in stage_plan["entries"]}:
+        ctx.dist["has_" + k] += 1
+    cands = {d + "/" + r for d, rs in candidates_by_root(stage_plan).items() for r in rs}
+    if cands - members:
+        ctx.dist["has_excluded_file"] += 1
+    if b"" in {data[p] for p in members}:
+        ctx.dist["has_empty_member"] += 1
+    if len(stage_plan["dirs"]) > 1:
+        ctx.dist["multi_dir"] += 1
+    if stage_plan.get("oracle") == "git":
+        pats = stage_plan["excludes"]
+        ctx.dist["excl-git:judged"] += 1
+        if any(q.startswith("!") for q in pats):
+            ctx.dist["excl-git:has-negation"] += 1
+            if git_members(stage_plan, base, [q for q in pats if not q.startswith("!")]) != members:
+                ctx.dist["excl-git:negation-takes-effect"] += 1
+                twins = {q for g in want for q in g}
+                if twins & (members - git_members(stage_plan, base, [q for q in pats if not q.startswith("!")])):
+                    ctx.dist["excl-git:re-included-file-is-a-listed-twin"] += 1
+        if len(pats) > 1 and git_members(stage_plan, base, pats[::-1]) != members:
+            ctx.dist["excl-git:order-matters"] += 1
+        if len(set(pats)) < len(pats):
+            ctx.dist["excl-git:has-repeated-pattern"] += 1
+    if want and n_unique >= 1:
+        ctx.nontrivial.add(signature(stage_plan, want, members) + (f"|stage{stage}|{plan.get('warm')}" if stage else ""))
+    ctx.sample({"dirs": stage_plan["dirs"], "excludes": stage_plan["excludes"], "mode": stage_plan["mode"], "origin": origin, "stage": stage,
+                "history": plan.get("history"), "warm": plan.get("warm") if plan.get("history") else None,
+                "files": [(e["p"], e["k"], e.get("to") or len(e["hex"]) // 2) for e in stage_plan["entries"]][:12],
+                "expected_groups": sorted(sorted(g) for g in want)}, cap=8)
+
+
+def judge(ctx, drv, plan, stage_plan, base, cb, case, full, report, stage, origin):
+    """one observation of the implementation against the byte-wise partition of `stage_plan`"""
+    out = {}
+    members, why = members_of(stage_plan, base)
+    if members is None:
+        ctx.dist["excl-git:pattern-library-differs-from-git(not judged)"] += 1
+        out["not_judged"] = why
+        return out
+    want = oracle(stage_plan, members)
+    out["spec"] = sorted(sorted(g) for g in want)
+    _stats(ctx, plan, stage_plan, base, want, members, stage, origin)
+
+    if stage_plan["mode"] == "cli":
+        k = stage_plan.get("cli_split", len(stage_plan["excludes"]))
+        args = ["-R", "duplicates"]
+        for p in stage_plan["excludes"][:k]:
+            args += ["-x", p]
+        rc, so, se = core.run_cli("codebasin", args + ["analysis.toml"], cwd=base / "root")
+        out["cli_rc"] = rc
+        ctx.count(key="cli")
+        if rc != 0:
+            ctx.notes.append(f"CLI exit {rc} on {json.dumps(plan)[:300]}: {se[-300:]}")
+            out["cli_stderr"] = se[-500:]
+            return out
+        got, probs = parse_report(so, base)
+        out["implementation_cli"] = None if got is None else [sorted(g) for g in got]
+        if got is None or probs or set(got) != want or len(got) != len(set(got)):
+            what = "CLI `-R duplicates`: " + "; ".join(probs[:3] + ([describe(want, set(got))] if got is not None and set(got) != want else [])
+                                                       + (["a group is printed twice"] if got is not None and len(got) != len(set(got)) else []))
+            ctx.violation(what, case)
+        if not full:
+            return out
+
+    tag = f"[stage {stage}, same CodeBase object as before the edits] " if stage else ""
+    # --- implementation vs the byte-wise partition (real sha512)
+    got, probs = run_find(report, cb, base)
+    out["implementation"] = None if got is None else [sorted(g) for g in got]
+    bad = list(probs)
+    if got is not None:
+        if len(got) != len(set(got)):
+            bad.append("the same group is reported twice")
+        if set(got) != want:
+            bad.append(describe(want, set(got)))
+        for g in got:  # clause-level diagnosis
+            if len(g) < 2:
+                bad.append(f"group with fewer than two files: {sorted(g)}")
+            for p in g:
+                if (base / p).is_symlink():
+                    bad.append(f"symbolic link listed: {p}")
+                elif p not in members:
+                    bad.append(f"listed file is not a code-base file: {p}")
+    if bad:
+        ctx.violation(tag + "find_duplicates: " + "; ".join(bad[:4]), case)
+    # --- implementation with interposed weak digests: same result required
+    out["implementation_weak_hash"] = {}
+    for wk in (WEAK if not stage else WEAK[stage % 3:stage % 3 + 1]):
+        gw, pw = run_find(report, cb, base, weak=wk)
+        out["implementation_weak_hash"][wk] = None if gw is None else [sorted(g) for g in gw]
+        ctx.count(key="weak-hash:" + wk)
+        if gw is None or pw or set(gw) != want or len(gw) != len(set(gw)):
+            ctx.violation(tag + f"find_duplicates with hashlib.file_digest interposed by a '{wk}' digest (harness-side): "
+                          + "; ".join(pw[:2] + ([describe(want, set(gw))] if gw is not None else [])), dict(case, weak_hash=wk))
+    # --- printed report
+    buf = io.StringIO()
+    try:
+        with contextlib.redirect_stdout(buf):
+            report.duplicates(cb, buf)
+        printed, pp = parse_report(buf.getvalue(), base)
+    except Exception as e:  # noqa
+        printed, pp = None, [f"report.duplicates raised {type(e).__name__}: {e}"]
+    out["implementation_printed"] = None if printed is None else [sorted(g) for g in printed]
+    ctx.count(key="printed")
+    if printed is None or pp or set(printed) != want or len(printed) != len(set(printed)):
+        ctx.violation(tag + "report.duplicates (printed): " + "; ".join(pp[:3] + ([describe(want, set(printed))] if printed is not None else [])), case)
+    # the same with a stream that is not sys.stdout: everything must go to the stream
+    b1, b2 = io.StringIO(), io.StringIO()
+    try:
+        with contextlib.redirect_stdout(b2):
+            report.duplicates(cb, b1)
+        p1, pp1 = parse_report(b1.getvalue(), base)
+    except Exception as e:  # noqa
+        p1, pp1 = None, [str(e)]
+    if p1 is None or pp1 or set(p1) != want:
+        st, leak = b1.getvalue(), b2.getvalue()
+        c2 = dict(case, stream="io.StringIO (not sys.stdout)", stream_text=st[:1500], stdout_text=leak[:1500])
+
+        def path_lines_leaked(_c, st=st, leak=leak):
+            # exactly the recorded defect: headings in the stream, every '- path' line on sys.stdout instead
+            listed = {q for g in want for q in g}
+            leaked = {rel(base, ln[2:]) for ln in leak.splitlines() if ln.startswith("- ")}
+            return bool(want) and "- " not in st and st.count("Match ") == len(want) and leaked == listed
+
+        ctx.classify(c2, tag + "report.duplicates(codebase, stream): the stream does not contain the report "
+                     f"(stream has {None if p1 is None else [sorted(g) for g in p1]}, {len(leak)} characters went to sys.stdout instead)",
+                     [("F-C16-1", path_lines_leaked)])
+    # --- model vs implementation (correspondence); the model is fed with a walk made NOW by the harness
+    if drv is not None and got is not None:
+        files = observe_enumeration(cb, base, stage_plan)
+        try:
+            listing = [rel(base, p) for p in cb]
+        except Exception as e:  # noqa
+            listing = f"iteration raised {type(e).__name__}"
+        if [f["path"] for f in files if f["member"] and not f["path"].startswith("outside/")] != listing:
+            ctx.notes.append(f"harness walk differs from iteration of the code base (stage {stage}) on " + json.dumps(plan)[:200])
+        out["model"] = {}
+        variants_ = MODEL_VARIANTS if not stage else MODEL_VARIANTS[:1] + MODEL_VARIANTS[1 + stage % 5:2 + stage % 5]
+        reqs = [{"op": "dups", "files": files, "hash": h, "choose": c, "seed": ctx.rng.randrange(1 << 30)} for h, c in variants_]
+        reps = drv.batch(reqs)
+        for (h, c), r in zip(variants_, reps):
+            mg = [frozenset(g) for g in r["groups"]]
+            out["model"][f"{h}/{c}"] = [sorted(g) for g in mg]
+            if set(mg) != set(got) or len(mg) != len(got):
+                ctx.corr_break(f"dups[{h}/{c}]", case, out["implementation"], r["groups"])
+            if set(mg) != want:
+                ctx.notes.append(f"model[{h}/{c}] != byte-wise partition on {json.dumps(plan)[:300]}")
+        # order of the groups = insertion order of the digests.  Only a statistic: it presupposes that the
+        # real digest is injective on the inputs, which the property (and the theorems) do not need.
+        mg = [frozenset(g) for g in reps[0]["groups"]]
+        if set(mg) == set(got):
+            ctx.dist["group_order_as_model" if mg == got else "group_order_differs_from_model"] += 1
+    return out
+
+
+def warm_up(warm, cb, base, plan0, report):
+    """what happens to the CodeBase object before the first edit when stage 0 is not judged"""
+    if warm == "iter":
+        list(cb)
+    elif warm == "contains":
+        for e in plan0["entries"]:
+            (base / e["p"]) in cb  # noqa: B015
+    elif warm == "printed":
+        with contextlib.redirect_stdout(io.StringIO()):
+            report.duplicates(cb, io.StringIO())
+    # "none": the object is only constructed
+
+
 def check_case(ctx, drv, plan, origin, full=True):
     core.import_codebasin()
     from codebasin import CodeBase, report
 
-    out = {}
+    hist = plan.get("history") or []
+    stages = stage_plans(plan)
+    api = plan["mode"] != "cli" or full
+    warm = plan.get("warm", "find") if hist and api else "find"  # CLI only: every stage is a separate process
+    outs = []
+    if hist:
+        ctx.dist[f"hist:stages={len(hist)}"] += 1
+        ctx.dist[f"hist:before-first-edit={warm}"] += 1
+        for edits in hist:
+            for ed in edits:
+                ctx.dist["hist:edit:" + ed["op"] + (":" + ed["e"]["k"] if ed["op"] == "add" else "")] += 1
     with core.Scratch() as d:
         base = Path(d).resolve()
-        materialise(plan, base)
-        want, members = oracle(plan)
-        data = plan_bytes(plan)
-        out["spec"] = sorted(sorted(g) for g in want)
-        case = {"plan": plan, "origin": origin}
-        n_unique = len(members) - sum(len(g) for g in want)
-        sizes = sorted((len(g) for g in want), reverse=True)
-        ctx.count(key=f"groups={min(len(want), 4)}{'+' if len(want) > 4 else ''},max={min(sizes[0], 5) if sizes else 0}")
-        kinds = {e["k"] for e in plan["entries"]}
-        for k in kinds:
-            ctx.dist["has_" + k] += 1
-        if any(gt_excluded("/".join(e["p"].split("/")[1:]), plan["excludes"]) for e in plan["entries"] if e["k"] != "symlink"):
-            ctx.dist["has_excluded_file"] += 1
-        if b"" in {data[p] for p in members}:
-            ctx.dist["has_empty_member"] += 1
-        if len(plan["dirs"]) > 1:
-            ctx.dist["multi_dir"] += 1
-        if want and n_unique >= 1:
-            ctx.nontrivial.add(signature(plan, want, members))
-        ctx.sample({"dirs": plan["dirs"], "excludes": plan["excludes"], "mode": plan["mode"],
-                    "files": [(e["p"], e["k"], e.get("to") or len(e["hex"]) // 2) for e in plan["entries"]][:12],
-                    "expected_groups": out["spec"]}, cap=5)
-
-        if plan["mode"] == "cli":
-            args = ["-R", "duplicates"]
-            for p in plan["excludes"]:
-                args += ["-x", p]
-            rc, so, se = core.run_cli("codebasin", args + ["analysis.toml"], cwd=base / "root")
-            out["cli_rc"] = rc
-            if rc != 0:
-                ctx.notes.append(f"CLI exit {rc} on {json.dumps(plan)[:300]}: {se[-300:]}")
-                out["cli_stderr"] = se[-500:]
-                return out
-            got, probs = parse_report(so, base)
-            out["implementation_cli"] = None if got is None else [sorted(g) for g in got]
-            if got is None or probs or set(got) != want or len(got) != len(set(got)):
-                what = "CLI `-R duplicates`: " + "; ".join(probs[:3] + ([describe(want, set(got))] if got is not None and set(got) != want else [])
-                                                           + (["a group is printed twice"] if got is not None and len(got) != len(set(got)) else []))
-                ctx.violation(what, case)
-            if not full:
-                return out
-
-        cb = CodeBase(*[str(base / x) for x in plan["dirs"]], exclude_patterns=list(plan["excludes"]))
-        # --- implementation vs the byte-wise partition (real sha512)
-        got, probs = run_find(report, cb, base)
-        out["implementation"] = None if got is None else [sorted(g) for g in got]
-        bad = list(probs)
-        if got is not None:
-            if len(got) != len(set(got)):
-                bad.append("the same group is reported twice")
-            if set(got) != want:
-                bad.append(describe(want, set(got)))
-            for g in got:  # clause-level diagnosis
-                if len(g) < 2:
-                    bad.append(f"group with fewer than two files: {sorted(g)}")
-                for p in g:
-                    if (base / p).is_symlink():
-                        bad.append(f"symbolic link listed: {p}")
-                    elif p not in members:
-                        bad.append(f"listed file is not a code-base file: {p}")
-        if bad:
-            ctx.violation("find_duplicates: " + "; ".join(bad[:4]), case)
-        # --- implementation with interposed weak digests: same result required
-        out["implementation_weak_hash"] = {}
-        for wk in WEAK:
-            gw, pw = run_find(report, cb, base, weak=wk)
-            out["implementation_weak_hash"][wk] = None if gw is None else [sorted(g) for g in gw]
-            ctx.count(key="weak-hash:" + wk)
-            if gw is None or pw or set(gw) != want or len(gw) != len(set(gw)):
-                ctx.violation(f"find_duplicates with hashlib.file_digest interposed by a '{wk}' digest (harness-side): "
-                              + "; ".join(pw[:2] + ([describe(want, set(gw))] if gw is not None else [])), dict(case, weak_hash=wk))
-        # --- printed report
-        buf = io.StringIO()
-        try:
-            with contextlib.redirect_stdout(buf):
-                report.duplicates(cb, buf)
-            printed, pp = parse_report(buf.getvalue(), base)
-        except Exception as e:  # noqa
-            printed, pp = None, [f"report.duplicates raised {type(e).__name__}: {e}"]
-        out["implementation_printed"] = None if printed is None else [sorted(g) for g in printed]
-        ctx.count(key="printed")
-        if printed is None or pp or set(printed) != want or len(printed) != len(set(printed)):
-            ctx.violation("report.duplicates (printed): " + "; ".join(pp[:3] + ([describe(want, set(printed))] if printed is not None else [])), case)
-        # the same with a stream that is not sys.stdout: everything must go to the stream
-        b1, b2 = io.StringIO(), io.StringIO()
-        try:
-            with contextlib.redirect_stdout(b2):
-                report.duplicates(cb, b1)
-            p1, pp1 = parse_report(b1.getvalue(), base)
-        except Exception as e:  # noqa
-            p1, pp1 = None, [str(e)]
-        if p1 is None or pp1 or set(p1) != want:
-            st, leak = b1.getvalue(), b2.getvalue()
-            c2 = dict(case, stream="io.StringIO (not sys.stdout)", stream_text=st[:1500], stdout_text=leak[:1500])
-
-            def path_lines_leaked(_c, st=st, leak=leak):
-                # exactly the recorded defect: headings in the stream, every '- path' line on sys.stdout instead
-                lp, _ = parse_report("Duplicates\n" + "\n".join(
-                    ln if ln.startswith("- ") else "" for ln in leak.splitlines()).replace("\n\n", "\n"), base)
-                listed = {q for g in want for q in g}
-                leaked = {rel(base, ln[2:]) for ln in leak.splitlines() if ln.startswith("- ")}
-                return bool(want) and "- " not in st and st.count("Match ") == len(want) and leaked == listed
-
-            ctx.classify(c2, "report.duplicates(codebase, stream): the stream does not contain the report "
-                         f"(stream has {None if p1 is None else [sorted(g) for g in p1]}, {len(leak)} characters went to sys.stdout instead)",
-                         [("F-C16-1", path_lines_leaked)])
-        # --- model vs implementation (correspondence)
-        if drv is not None and got is not None:
-            files = observe_enumeration(cb, base, plan)
-            listing = [rel(base, p) for p in cb]
-            if [f["path"] for f in files if f["member"] and not f["path"].startswith("outside/")] != listing:
-                ctx.notes.append("harness walk differs from iteration of the code base on " + json.dumps(plan)[:200])
-            out["model"] = {}
-            reqs = [{"op": "dups", "files": files, "hash": h, "choose": c, "seed": ctx.rng.randrange(1 << 30)} for h, c in MODEL_VARIANTS]
-            reps = drv.batch(reqs)
-            for (h, c), r in zip(MODEL_VARIANTS, reps):
-                mg = [frozenset(g) for g in r["groups"]]
-                out["model"][f"{h}/{c}"] = [sorted(g) for g in mg]
-                if set(mg) != set(got) or len(mg) != len(got):
-                    ctx.corr_break(f"dups[{h}/{c}]", case, out["implementation"], r["groups"])
-                if set(mg) != want:
-                    ctx.notes.append(f"model[{h}/{c}] != byte-wise partition on {json.dumps(plan)[:300]}")
-            # order of the groups = insertion order of the digests.  Only a statistic: it presupposes that the
-            # real digest is injective on the inputs, which the property (and the theorems) do not need.
-            mg = [frozenset(g) for g in reps[0]["groups"]]
-            if set(mg) == set(got):
-                ctx.dist["group_order_as_model" if mg == got else "group_order_differs_from_model"] += 1
-    return out
+        materialise(stages[0], base)
+        cb = None
+        prev = None
+        for i, pl in enumerate(stages):
+            if i:
+                c16gen.apply_on_disk(base, hist[i - 1])
+            if api and cb is None:
+                # ONE object for the whole history
+                cb = CodeBase(*[str(base / x) for x in plan["dirs"]], exclude_patterns=list(plan["excludes"]))
+            case = {"plan": plan, "origin": origin}
+            if hist:
+                case["stage"] = i
+            if i == 0 and warm != "find":
+                try:
+                    if api:
+                        warm_up(warm, cb, base, pl, report)
+                    outs.append({"before_first_edit": warm})
+                except Exception as e:  # noqa
+                    ctx.violation(f"{warm} on a fresh CodeBase raised {type(e).__name__}: {e}", case)
+                    outs.append({"before_first_edit": warm, "raised": str(e)})
+                m0, _ = members_of(pl, base)
+                prev = None if m0 is None else sorted(sorted(g) for g in oracle(pl, m0))
+                continue
+            o = judge(ctx, drv, plan, pl, base, cb, case, full, report, i, origin)
+            if i and "spec" in o:
+                if prev is not None and prev != o["spec"]:
+                    ctx.dist["hist:edits-change-the-partition"] += 1
+            prev = o.get("spec", prev)
+            outs.append(o)
+    return {"stages": outs} if hist else outs[0]
 
 
 # ---------------------------------------------------------------------------
@@ -527,6 +722,33 @@ def fixed_plans():
         {"mode": "api", "dirs": ["root", "root/sub"], "excludes": [], "entries": [
             {"p": "root/sub/a.c", "k": "file", "hex": A}, {"p": "root/sub/b.c", "k": "file", "hex": A},
             {"p": "root/c.c", "k": "file", "hex": "00"}, {"p": "root/h.c", "k": "hardlink", "to": "root/c.c"}]},
+        # ordered exclude list: a directory's files excluded, one taken back, an extension excluded, one taken back,
+        # a repeat of the first pattern BEFORE the negation (no effect), a negation before its pattern (no effect)
+        {"mode": "api", "dirs": ["root"], "oracle": "git",
+         "excludes": ["!u.h", "lib/*", "*.h", "lib/*", "!lib/k.c", "!**/g.h", "u.h"], "entries": [
+            {"p": "root/lib/k.c", "k": "file", "hex": A}, {"p": "root/lib/j.c", "k": "file", "hex": A},
+            {"p": "root/m.c", "k": "file", "hex": A}, {"p": "root/sub/g.h", "k": "file", "hex": B},
+            {"p": "root/o.c", "k": "file", "hex": B}, {"p": "root/u.h", "k": "file", "hex": B},
+            {"p": "root/v.h", "k": "file", "hex": B}, {"p": "root/w.c", "k": "file", "hex": "41"}]},
+        # history: object constructed and reported on; then twins added (existing and new directory), a twin deleted,
+        # a twin overwritten by a same-size near-duplicate, a unique file overwritten into a class, a rename out of the code base
+        {"mode": "api", "dirs": ["root"], "excludes": ["excl/"], "warm": "find", "entries": [
+            {"p": "root/a.c", "k": "file", "hex": A}, {"p": "root/b.c", "k": "file", "hex": A},
+            {"p": "root/c.c", "k": "file", "hex": B}, {"p": "root/d.c", "k": "file", "hex": "41"},
+            {"p": "root/e.c", "k": "file", "hex": E}, {"p": "root/p.c", "k": "file", "hex": big},
+            {"p": "root/q.c", "k": "file", "hex": big}],
+         "history": [
+            [{"op": "add", "e": {"p": "root/sub/c2.h", "k": "file", "hex": B}},
+             {"op": "add", "e": {"p": "root/fresh/e1.h", "k": "file", "hex": E}},
+             {"op": "add", "e": {"p": "root/fresh/e2.h", "k": "file", "hex": E}},
+             {"op": "add", "e": {"p": "root/excl/a3.c", "k": "file", "hex": A}}],
+            [{"op": "del", "p": "root/b.c"}, {"op": "write", "p": "root/q.c", "hex": big2},
+             {"op": "write", "p": "root/d.c", "hex": B}],
+            [{"op": "move", "p": "root/sub/c2.h", "to": "root/sub/c2.txt"}, {"op": "add", "e": {"p": "root/b.c", "k": "file", "hex": A}}]]},
+        # history on an object that was only constructed before the edits
+        {"mode": "api", "dirs": ["root", "root2"], "excludes": [], "warm": "none", "entries": [
+            {"p": "root/a.c", "k": "file", "hex": A}, {"p": "root2/u.c", "k": "file", "hex": "41"}],
+         "history": [[{"op": "add", "e": {"p": "root2/a.c", "k": "file", "hex": A}}]]},
     ]
 
 
@@ -534,29 +756,52 @@ def run(ctx, drv):
     ctx.rule = ("inputs = generated code bases (1-2 directories, nested sub-directories, 0-14 source files with contents drawn "
                 "from a pool of 1-6 byte strings containing near-duplicates: last/first/middle byte changed, one byte longer/shorter, "
                 "empty, > 8 KiB; plus twins with unrecognised extension, outside the root, excluded by patterns, hard links, "
-                "symlinks to members/outside/dangling/directories; every file has the same mtime). Each is checked through "
-                "find_duplicates (real sha512 and 3 interposed weak digests), the printed report, and (CLI stream) `codebasin -R duplicates`. "
-                "Non-trivial = distinct code base (paths, kinds, content classes, directories, patterns) whose byte-wise partition has "
-                ">= 1 class of size >= 2 AND >= 1 regular member with unique content.")
+                "symlinks to members/outside/dangling/directories; every file has the same mtime). Three streams of them: "
+                "(1) 'random': exclude list = subset of five fixed pattern forms (hand-written ground truth), one report on a fresh CodeBase; "
+                "(2) 'excl-git': exclude list = ORDERED gitignore-style list of 1-7 patterns derived from the files (file-, directory- and "
+                "catch-all patterns, negations after/before the pattern they amend, re-exclusions, exact repeats); membership for the "
+                "oracle = `git check-ignore` on that ordered list; lists on which pathspec and git differ are counted and not judged; "
+                "(3) 'history': ONE CodeBase object is constructed and (by draw) reported on / iterated / queried / left untouched, then 1-3 "
+                "stages of 1-4 edits each are applied to the tree (add file to an existing or new directory, delete, overwrite with same-size "
+                "or other-size content, rename inside / into excluded places / to an unrecognised extension / outside, regular file <-> "
+                "symlink, add hard link / symlink) and after every stage the report of the SAME object is compared with the byte-wise "
+                "partition of the edited plan (30 % of the histories use stream-2 exclude lists). "
+                "Each observation goes through find_duplicates (real sha512 and interposed weak digests: 3 at stage 0, 1 per later stage), "
+                "the printed report, and (CLI streams 'random-cli', 'excl-git-cli': list split between -x and [codebase] exclude; "
+                "'history-cli': one process per stage) `codebasin -R duplicates`. "
+                "Non-trivial = distinct code base (paths, kinds, content classes, directories, ordered patterns; for later stages also the "
+                "stage number) whose byte-wise partition has >= 1 class of size >= 2 AND >= 1 regular member with unique content.")
     ctx.assumptions += [
         "hashlib.file_digest and filecmp.cmp(shallow=False) are modelled as 'a function of the bytes' and 'equality of the bytes'",
-        "membership of a file in the code base is ground truth of the generator for the oracle (simple pattern forms only) and "
-        "CodeBase.__contains__ as observed for the model input (membership itself is property C09)",
-        "files do not change while the report is computed; one path denotes one file (hypothesis Functional of the theorems)",
+        "membership of a file in the code base is ground truth of the generator for the oracle (five simple pattern forms, or "
+        "`git check-ignore --no-index` on the ordered list for the excl-git stream, restricted to lists on which pathspec agrees "
+        "with git on every candidate file) and CodeBase.__contains__ as observed for the model input (membership itself is property C09); "
+        "the Lean model does not contain the pattern language: a wrong exclude list is detected by the implementation-vs-oracle "
+        "comparison and shows up as a correspondence break only through the observed `member` flags",
+        "files do not change while ONE report is computed (they do change between the reports of a history; the model is fed "
+        "with a walk made by the harness at the time of each report); one path denotes one file (hypothesis Functional of the theorems)",
+        "histories are observed through the Python API (one object) and through separate CLI processes; finder.find / get_setmap "
+        "are not used as the first consumer of the object (list(), `in`, find_duplicates and report.duplicates are)",
         "weak digests are interposed in the harness process only (hashlib.file_digest monkeypatched around the call); the repository is not modified",
     ]
     for f in sorted((core.VERIF / "corpus" / "C16").glob("*.json")):
         check_case(ctx, drv, json.loads(f.read_text())["plan"], "corpus:" + f.name)
     for i, p in enumerate(fixed_plans()):
         check_case(ctx, drv, p, f"fixed{i}")
-    for _ in range(ctx.n(600, 3500)):
-        check_case(ctx, drv, gen_plan(ctx.rng, "api"), "random")
-        if len(ctx.violations) >= 20:
-            break
-    for _ in range(ctx.n(12, 80)):
-        check_case(ctx, drv, gen_plan(ctx.rng, "cli"), "random-cli", full=False)
-        if len(ctx.violations) >= 20:
-            break
+    def stream(n, origin, full=True, **kw):
+        for _ in range(n):
+            if len(ctx.violations) >= 20:
+                break
+            ctx.dist["stream:" + origin] += 1
+            check_case(ctx, drv, gen_plan(ctx.rng, **kw), origin, full=full)
+
+    stream(ctx.n(600, 3500), "random", mode="api")
+    stream(ctx.n(150, 900), "excl-git", mode="api", excl="git")
+    stream(ctx.n(110, 660), "history", mode="api", history=True)
+    stream(ctx.n(50, 300), "history+excl-git", mode="api", excl="git", history=True)
+    stream(ctx.n(12, 80), "random-cli", full=False, mode="cli")
+    stream(ctx.n(14, 90), "excl-git-cli", full=False, mode="cli", excl="git")
+    stream(ctx.n(4, 24), "history-cli", full=False, mode="cli", history=True)
 
 
 def search(ctx, drv):
@@ -566,7 +811,7 @@ def search(ctx, drv):
 def replay(ctx, drv, case):
     plan = case["plan"]
     c2 = core.Ctx(ctx.prop, "quick", 0)
-    out = check_case(c2, drv, plan, "replay")
+    out = check_case(c2, drv, plan, "replay", full=case.get("origin", "").endswith("-cli") is False)
     out["violations"] = [w for w, _ in c2.violations]
     out["known_findings"] = sorted(c2.known_seen)
     out["correspondence_breaks"] = [b["op"] for b in c2.corr_breaks]
